@@ -71,7 +71,15 @@ pub(crate) fn write_diagnostic(
     };
 
     let trim_end = (text.len() - trim_start).saturating_sub(line_width);
-    let text = &text[trim_start..text.len() - trim_end];
+    // clip on char boundaries
+    let trim_start = (0..=trim_start)
+        .rev()
+        .find(|i| text.is_char_boundary(*i))
+        .unwrap_or(0);
+    let clip_end = (text.len() - trim_end..=text.len())
+        .find(|i| text.is_char_boundary(*i))
+        .unwrap_or(text.len());
+    let text = &text[trim_start..clip_end];
     let ellipsis = if trim_start == 0 { "" } else { "..." };
 
     let line_ws = text.bytes().take_while(u8::is_ascii_whitespace).count();
